@@ -7,37 +7,36 @@ Local Open Scope nat_scope.
 
 (* ---- the fraction cascade ----------------------------------------------------------------- *)
 Lemma old_style_agree fs fil unf :
-  match fil with Null => false | _ => true end = true ->
-  match unf with Null => false | _ => true end = true ->
   match weighted_n fil, weighted_n unf with
   | Some n, Some d => Value (guarded_div n d)
   | _, _ => Raises
   end = Value (old_style_spec {| r_filter_stats := fs; r_filtered := fil; r_unfiltered := unf |}).
 Proof.
   unfold old_style_spec. simpl.
-  destruct fil as [| |[| |n]], unf as [| |[| |d]]; simpl; intros H1 H2;
-    try discriminate; reflexivity.
+  destruct fil as [| |[| |n]], unf as [| |[| |d]]; simpl; reflexivity.
 Qed.
 
-(* the model's cascade is the property's decision list whenever no dict is null and the
-   complete-case numbers, if given, are both given *)
+(* the model's cascade is the property's decision list for EVERY shape (a JSON null counts as
+   "not present") whose complete-case numbers, if given, are both given *)
 Theorem pop_fraction_eq_spec r :
-  no_null_dicts r = true -> wf_shape r = true ->
+  wf_shape r = true ->
   pop_fraction r = Value (pop_fraction_spec r).
 Proof.
-  destruct r as [fs fil unf]. unfold no_null_dicts, wf_shape. simpl.
-  intros Hn Hw.
-  apply andb_prop in Hn. destruct Hn as [Hn H3].
-  apply andb_prop in Hn. destruct Hn as [H1 H2].
+  destruct r as [fs fil unf]. unfold wf_shape. simpl.
+  intros Hw.
   unfold pop_fraction, weighted_complete, pop_fraction_spec. simpl.
-  destruct fs as [| |[fc cd]]; simpl in *; try discriminate.
-  - apply old_style_agree; assumption.
-  - destruct fc as [| |[| |[s o]]]; simpl in *; try discriminate;
-      try (apply old_style_agree; assumption).
-    destruct s as [| |s], o as [| |o]; simpl in *; try discriminate.
-    + apply old_style_agree; assumption.
-    + destruct cd; reflexivity.
+  destruct fs as [| |[fc cd]]; simpl in *; try discriminate;
+    try (apply old_style_agree).
+  destruct fc as [| |[| |[s o]]]; simpl in *; try discriminate;
+      try (apply old_style_agree).
+  destruct s as [| |s], o as [| |o]; simpl in *; try discriminate.
+  + apply old_style_agree.
+  + destruct cd; reflexivity.
 Qed.
+
+(* in particular the cascade never raises on a well-formed shape *)
+Corollary pop_fraction_total r : wf_shape r = true -> pop_fraction r <> Raises.
+Proof. intros H. rewrite (pop_fraction_eq_spec r H). discriminate. Qed.
 
 (* the decision list, one readable rule at a time *)
 Definition new_style (s o : Q) (cd : bool) (fil unf : field (field Q)) : fshape :=
@@ -65,8 +64,9 @@ Proof. reflexivity. Qed.
 (* no usable new-style statistics: absent filter_stats, absent filtered_complete, absent / null /
    empty "weighted" *)
 Definition no_new_style (fs : field fstats) : Prop :=
-  fs = Absent \/
+  fs = Absent \/ fs = Null \/
   exists cd, fs = Val {| fs_complete := Absent; fs_is_cat_date := cd |} \/
+             fs = Val {| fs_complete := Null; fs_is_cat_date := cd |} \/
              fs = Val {| fs_complete := Val Absent; fs_is_cat_date := cd |} \/
              fs = Val {| fs_complete := Val Null; fs_is_cat_date := cd |} \/
              fs = Val {| fs_complete := Val (Val {| w_selected := Absent; w_other := Absent |});
@@ -74,7 +74,7 @@ Definition no_new_style (fs : field fstats) : Prop :=
 
 Lemma no_new_style_weighted fs fil unf : no_new_style fs ->
   weighted_complete {| r_filter_stats := fs; r_filtered := fil; r_unfiltered := unf |} = Some None.
-Proof. intros [->|[cd [->|[->|[->| ->]]]]]; reflexivity. Qed.
+Proof. intros [->|[->|[cd [->|[->|[->|[->| ->]]]]]]]; reflexivity. Qed.
 
 Theorem pf_old_style fs n d : no_new_style fs -> ~ (d == 0)%Q ->
   pop_fraction {| r_filter_stats := fs; r_filtered := Val (Val n); r_unfiltered := Val (Val d) |}
@@ -93,30 +93,31 @@ Proof.
 Qed.
 
 (* unspecified: either weighted N missing (key absent, dict absent, or weighted_n null) *)
-Definition no_number (f : field (field Q)) : Prop := f = Absent \/ f = Val Absent \/ f = Val Null.
+Definition no_number (f : field (field Q)) : Prop :=
+  f = Absent \/ f = Null \/ f = Val Absent \/ f = Val Null.
 Theorem pf_unspecified fs fil unf : no_new_style fs ->
-  fil <> Null -> unf <> Null -> no_number fil \/ no_number unf ->
+  no_number fil \/ no_number unf ->
   pop_fraction {| r_filter_stats := fs; r_filtered := fil; r_unfiltered := unf |} = Value (Fin 1).
 Proof.
-  intros H H1 H2 Hno. unfold pop_fraction. rewrite (no_new_style_weighted _ _ _ H). simpl.
+  intros H Hno. unfold pop_fraction. rewrite (no_new_style_weighted _ _ _ H). simpl.
   destruct fil as [| |[| |n]], unf as [| |[| |d]]; simpl; try congruence; try reflexivity.
-  destruct Hno as [[E|[E|E]]|[E|[E|E]]]; discriminate.
+  destruct Hno as [[E|[E|[E|E]]]|[E|[E|[E|E]]]]; discriminate.
 Qed.
 
-(* the defect: a null where a dict is expected escapes as an exception although the property
-   says such statistics are simply "not present" *)
-Theorem pf_null_refuted :
-  exists r, wf_shape r = true /\ pop_fraction r = Raises /\ pop_fraction_spec r = Fin 1.
+(* the repaired defect (known finding C17-null-filter-stats-raises, fixed): a null where a dict is
+   expected is "not present" - the former witnesses now evaluate to the property's value *)
+Theorem pf_null_is_absent :
+  pop_fraction {| r_filter_stats := Null; r_filtered := Absent; r_unfiltered := Absent |}
+  = Value (Fin 1) /\
+  pop_fraction {| r_filter_stats := Absent; r_filtered := Null; r_unfiltered := Val (Val 10%Q) |}
+  = Value (Fin 1).
+Proof. split; reflexivity. Qed.
+Theorem pf_null_complete_old_style n d : ~ (d == 0)%Q ->
+  pop_fraction {| r_filter_stats := Val {| fs_complete := Null; fs_is_cat_date := false |};
+                  r_filtered := Val (Val n); r_unfiltered := Val (Val d) |} = Value (Fin (n / d)).
 Proof.
-  exists {| r_filter_stats := Null; r_filtered := Absent; r_unfiltered := Absent |}.
-  repeat split.
-Qed.
-Theorem pf_null_complete_refuted :
-  exists r, wf_shape r = true /\ pop_fraction r = Raises /\ pop_fraction_spec r =x= Fin (1 # 2).
-Proof.
-  exists {| r_filter_stats := Val {| fs_complete := Null; fs_is_cat_date := false |};
-            r_filtered := Val (Val 5%Q); r_unfiltered := Val (Val 10%Q) |}.
-  split; [reflexivity|]. split; [reflexivity|]. vm_compute. reflexivity.
+  intros Hd. unfold pop_fraction. simpl.
+  destruct (Qeq_bool d 0) eqn:E; [apply Qeq_bool_iff in E; contradiction|reflexivity].
 Qed.
 
 (* ---- counts and MoE ------------------------------------------------------------------------ *)
@@ -200,11 +201,8 @@ Proof.
 Qed.
 
 (* no difference at all: never raises *)
-Lemma strand_no_diff_ok cd dr : count_true dr = 0 -> strand_pop_raises cd dr = false.
-Proof. intros H. unfold strand_pop_raises. rewrite H. simpl. apply andb_false_r. Qed.
-(* one difference on a non-date strand: fine *)
-Lemma strand_one_diff_ok dr : count_true dr = 1 -> strand_pop_raises false dr = false.
-Proof. intros H. unfold strand_pop_raises. rewrite H. reflexivity. Qed.
+Lemma strand_never_raises cd dr : strand_pop_raises cd dr = false.
+Proof. reflexivity. Qed.
 
 Lemma strand_pop_cat_date tabp q f dr i : i < length tabp -> nth i dr false = false ->
   vnth (strand_pop_values true tabp (Fin q) (Fin f) dr) i =x= Fin (q * f).
@@ -212,13 +210,14 @@ Proof.
   intros Hi Hd. rewrite strand_pop_values_cell by exact Hi. rewrite Hd. simpl. ring.
 Qed.
 
-(* the defects: differences on a strand make population_counts raise instead of being NaN *)
-Lemma strand_two_diffs_refuted :
-  exists tabp N f dr, count_true dr = 2 /\ strand_pop_counts false tabp N f dr = None.
-Proof. exists [Fin (1#2); Fin (1#2); Fin 0; Fin 0], (Fin 1000), (Fin 1), [false; false; true; true]. split; reflexivity. Qed.
-Lemma strand_cat_date_diff_refuted :
-  exists tabp N f dr, count_true dr = 1 /\ strand_pop_counts true tabp N f dr = None.
-Proof. exists [Fin (1#2); Fin (1#2); Fin 0], (Fin 1000), (Fin 1), [false; false; true]. split; reflexivity. Qed.
+(* the repaired defects (known findings C17-strand-population-two-differences and
+   C17-cat-date-strand-population-difference, fixed): every difference row is NaN, the others keep
+   their value - unconditionally *)
+Lemma strand_pop_counts_total cd tabp N f dr :
+  exists v, strand_pop_counts cd tabp N f dr = Some v /\ length v = length tabp /\
+    forall i, i < length tabp ->
+      vnth v i = if nth i dr false then NaN else xmul (xmul (if cd then Fin 1 else vnth tabp i) N) f.
+Proof. apply strand_pop_counts_cell. apply strand_never_raises. Qed.
 
 Lemma strand_pop_moe_cell cd tabse N f i : i < length tabse ->
   vnth (strand_pop_moe cd tabse N f) i = xmul (xmul Z975 (xmul N f)) (if cd then Fin 0 else vnth tabse i).
